@@ -49,8 +49,10 @@ def rect_like(n):
 LISTS_A = [[1, 2, 4], [1, 3, 6]]
 LISTS_B = [[1, 2, 3, 6], [1, 2, 4, 8], [1, 3, 6, 12]]
 # every list that bi_rectangle_nested produces starts with the single-borehole field (Domains.tla: BiRectListsStartWithSingle); Bisection2D relies on
-# it: an outer selection key 0 wraps to the LAST list (nested[-1]) and is only harmless because that list starts with the same field
-LISTS_C = [[1, 2], [1, 2, 3], [1, 4, 6, 9]]
+# it: an outer selection key 0 wraps to the LAST list (nested[-1]) and is only harmless because that list starts with the same field;
+# the outer search also labels its fields with list 0's descriptors, so list 0 must have at least (number of lists + 1) entries
+# (Domains.tla: BiRectFirstListLongEnough) - otherwise fieldDescriptors[x_r_idx] is an IndexError
+LISTS_C = [[1, 2, 3, 4], [1, 2, 3, 4, 6], [1, 2, 4, 6, 9, 12]]
 # a spacing window that admits no whole number of rows: empty candidate domain (F23)
 EMPTY_1D = [[]]
 EMPTY_NESTED = ([], [[]])
